@@ -15,6 +15,7 @@ EXPLANATION = (
 RULE = "one obligation per admitting arm of the admission function (guard form, reservation on every admitted path) and per writer of the reserved counter"
 TRUSTED = ["tokio::sync::Mutex (mutual exclusion of admission decisions)", "rustc MIR construction"]
 ASSUMPTIONS = ["permitted_calls_in_half_open is the public configuration name of the bound"]
+CONFIG_CRATES = ["tower_resilience_circuitbreaker"]
 TECHNIQUE = "static analysis of built MIR: check-then-act reservation rule (guard fields must be written on every admitted path), who-writes"
 
 
